@@ -37,12 +37,18 @@ pub struct Case {
     /// before write k, so that a blocking poll of the loop is interrupted (EINTR); missing = 0
     #[serde(default)]
     pub signals: Vec<u8>,
+    /// bit i set: before its recv loop, task i gives its descriptor number a previous life --
+    /// a socket of its own that it waits on for reading and for writing (both time out) and
+    /// closes through the hooked close; the task's real socket is then moved (dup2) onto that
+    /// descriptor number
+    #[serde(default)]
+    pub prelife: u8,
 }
 
 pub fn strategy() -> impl Strategy<Value = Case> {
-    (1u8..=2, 1u8..=4, proptest::collection::vec(((0u8..4, 2u8..12), prop_oneof![3 => Just(0u8), 2 => 1u8..4]), 1..4)).prop_map(|(loops, tasks, w)| {
+    (1u8..=2, 1u8..=4, proptest::collection::vec(((0u8..4, 2u8..12), prop_oneof![3 => Just(0u8), 2 => 1u8..4]), 1..4), prop_oneof![1 => Just(0u8), 1 => 0u8..16]).prop_map(|(loops, tasks, w, prelife)| {
         let (writes, signals): (Vec<(u8, u8)>, Vec<u8>) = w.into_iter().unzip();
-        Case { loops, tasks, writes, signals }
+        Case { loops, tasks, writes, signals, prelife }
     })
 }
 
@@ -52,6 +58,8 @@ struct Ev {
     kind: u8, // 0 parking, 1 resumed, 2 loop-resume
     a: u64,
     b: u64,
+    /// the OS thread the event was reported from
+    thread: u64,
 }
 
 static EVENTS: Mutex<Vec<Ev>> = Mutex::new(Vec::new());
@@ -63,7 +71,7 @@ fn handler(name: &'static str, a: u64, b: u64) {
         "event_loop:resume" => 2,
         _ => return,
     };
-    EVENTS.lock().unwrap().push(Ev { at: now(), kind, a, b });
+    EVENTS.lock().unwrap().push(Ev { at: now(), kind, a, b, thread: unsafe { libc::pthread_self() } as u64 });
 }
 
 pub fn child_main() -> i32 {
@@ -95,11 +103,16 @@ pub fn child_main() -> i32 {
     let mut handles = vec![];
     for i in 0..n {
         let (ids, got, threads) = (ids.clone(), got.clone(), threads.clone());
-        let fd = pairs[i].0;
+        let real = pairs[i].0;
+        let prelife = case.prelife & (1 << i) != 0;
         handles.push(EventLoops::submit_task(
             Some(format!("c20-task-{i}")),
             move |_| {
                 threads[i].store(unsafe { libc::pthread_self() } as u64, Ordering::SeqCst);
+                let mut fd = real;
+                if prelife {
+                    fd = previous_life(real);
+                }
                 ids[i].store(SchedulableCoroutine::current().map_or(0, |c| c.id()), Ordering::SeqCst);
                 loop {
                     let mut b = [0u8; 1];
@@ -192,12 +205,44 @@ pub fn child_main() -> i32 {
         std::thread::sleep(Duration::from_millis(2));
     }
     open_coroutine_core::verif::set_handler(None);
-    let evs: Vec<serde_json::Value> = EVENTS.lock().unwrap().iter().map(|e| json!([e.at.to_string(), e.kind, e.a.to_string(), e.b])).collect();
+    let evs: Vec<serde_json::Value> = EVENTS.lock().unwrap().iter().map(|e| json!([e.at.to_string(), e.kind, e.a.to_string(), e.b, e.thread.to_string()])).collect();
     let idv: Vec<String> = (0..n).map(|i| ids[i].load(Ordering::SeqCst).to_string()).collect();
     child::emit(json!({"ev":"result","ids":idv,"writes":writes,"written":written,"events":evs,"signalled":signalled}));
     // the tasks are still blocked in recv: leave without tearing the runtime down
     let _ = handles;
     unsafe { libc::_exit(0) }
+}
+
+/// Gives a descriptor number a previous life inside the calling task: a socket that is waited
+/// on for reading (hooked recv, 2 ms limit, nothing arrives) and for writing (hooked send into
+/// a full buffer, 2 ms limit) and then closed through the hooked close. The task's real socket
+/// is then moved onto that number. Returns the descriptor the task should use.
+fn previous_life(real: c_int) -> c_int {
+    let mut p = [0 as c_int; 2];
+    unsafe {
+        if libc::socketpair(libc::AF_UNIX, libc::SOCK_STREAM, 0, p.as_mut_ptr()) != 0 {
+            return real;
+        }
+    }
+    let tv = libc::timeval { tv_sec: 0, tv_usec: 2_000 };
+    let len = std::mem::size_of::<libc::timeval>() as libc::socklen_t;
+    let _ = hooked::setsockopt(None, p[0], libc::SOL_SOCKET, libc::SO_RCVTIMEO, std::ptr::from_ref(&tv).cast(), len);
+    let _ = hooked::setsockopt(None, p[0], libc::SOL_SOCKET, libc::SO_SNDTIMEO, std::ptr::from_ref(&tv).cast(), len);
+    let mut b = [0u8; 1];
+    let _ = hooked::recv(None, p[0], b.as_mut_ptr().cast(), 1, 0);
+    let big = vec![7u8; 1 << 20];
+    let _ = hooked::send(None, p[0], big.as_ptr().cast(), big.len(), 0);
+    // (a hooked send gives up at its time limit without waiting when the limit is that short;
+    // the wait the hooked calls make is issued directly as well)
+    let _ = EventLoops::wait_write_event(p[0], Some(Duration::from_millis(1)));
+    let _ = hooked::close(None, p[0]);
+    unsafe {
+        let _ = libc::close(p[1]);
+        if libc::dup2(real, p[0]) == p[0] {
+            return p[0];
+        }
+    }
+    real
 }
 
 fn u(v: &serde_json::Value) -> u64 {
@@ -233,6 +278,11 @@ pub fn exec_once(c: &Case) -> Outcome {
         .as_array()
         .map(|a| a.iter().map(|e| (u(&e[0]), e[1].as_u64().unwrap_or(9), u(&e[2]), e[3].as_u64().unwrap_or(0))).collect())
         .unwrap_or_default();
+    // (coroutine id, time, reporting thread) of every parking / resumed event
+    let threads_of: Vec<(u64, u64, u64)> = res["events"]
+        .as_array()
+        .map(|a| a.iter().filter(|e| e[1].as_u64().unwrap_or(9) <= 1).map(|e| (u(&e[2]), u(&e[0]), u(&e[4]))).collect())
+        .unwrap_or_default();
     let n = ids.len();
     let mut parked_others = 0;
     let mut judged = 0;
@@ -260,8 +310,14 @@ pub fn exec_once(c: &Case) -> Outcome {
         // (b) first resumed-event of the target after the write
         if let Some(e) = events.iter().find(|e| e.1 == 1 && e.2 == id && e.0 >= write_at) {
             if e.3 != 1 {
+                // with two loops the waiter may have been resumed (slice timeout) by the other
+                // loop in the meantime: its interest stays registered with the first loop's
+                // poller (interest records are process-wide), whose event then finds nothing
+                // to resume -- the root cause listed for C21/2-loops
+                let homes: std::collections::BTreeSet<u64> = threads_of.iter().filter(|t| t.0 == id && t.1 <= e.0).map(|t| t.2).collect();
+                let sig = if c.loops >= 2 && homes.len() >= 2 { "C20/2-loops/woken-by-periodic-timeout-after-the-waiter-moved-to-another-loop" } else { "C20/woken-by-periodic-timeout-instead-of-readiness" };
                 o.set_fail(
-                    "C20/woken-by-periodic-timeout-instead-of-readiness",
+                    sig,
                     format!(
                         "task {ti} (coroutine id {id}) parked at t0, its socket became readable {} us later, and it was resumed {} us after the write with {} (1 = Callback, 2 = Timeout)",
                         (write_at - park_at) / 1000,
@@ -307,7 +363,7 @@ pub fn exec_once(c: &Case) -> Outcome {
         o.excluded = Some("timing-window-missed");
     }
     o.nontrivial = judged >= 1 && n >= 2;
-    o.class_if(n >= 2, "2+waiters-parked").class_if(judged >= 2, "2+writes-judged").class_if(c.loops >= 2, "2-event-loops").class_if(res["signalled"].as_u64().unwrap_or(0) > 0, "loop-poll-interrupted-by-signal")
+    o.class_if(n >= 2, "2+waiters-parked").class_if(judged >= 2, "2+writes-judged").class_if(c.loops >= 2, "2-event-loops").class_if(res["signalled"].as_u64().unwrap_or(0) > 0, "loop-poll-interrupted-by-signal").class_if(c.prelife != 0, "descriptor-number-had-a-previous-life")
 }
 
 pub fn main(args: &Args) -> i32 {
